@@ -50,6 +50,7 @@ type CallbackSpec struct {
 
 type Contract struct {
 	GhostVars []GhostVar
+	Hints     []SExpr // lemma instances re-instantiated in the current state before every obligation
 	Uses      []string
 	Callbacks map[string]*CallbackSpec
 	Pkg      string // package name (short)
@@ -118,7 +119,7 @@ var clauseKeywords = map[string]bool{
 	"requires": true, "ensures": true, "modifies": true, "loop": true, "foreach": true, "serves": true,
 	"trusted": true, "func": true, "fun": true, "pred": true, "lemma": true, "axiom": true, "mode": true,
 	"ghost": true, "inline": true, "pure": true, "bounded": true, "opaque": true,
-	"uses": true, "callback": true, "globalinv": true, "pattern": true,
+	"uses": true, "callback": true, "globalinv": true, "pattern": true, "hint": true,
 }
 
 type rawLine struct {
@@ -497,6 +498,15 @@ func (ps *PkgSpec) parseLines(raw []rawLine) error {
 			default:
 				return errf("uses outside func/lemma")
 			}
+		case "hint":
+			if cur == nil {
+				return errf("hint outside func")
+			}
+			e, err := ParseSpec("$tuple(" + rest + ")")
+			if err != nil {
+				return errf("%v", err)
+			}
+			cur.Hints = append(cur.Hints, e.(*SCall).Args...)
 		case "pattern":
 			if curLemma == nil {
 				return errf("pattern outside lemma")
